@@ -6,7 +6,9 @@ import (
 	"bufio"
 	"fmt"
 	"io"
+	"os"
 	"os/exec"
+	"sort"
 	"strconv"
 	"strings"
 	"time"
@@ -115,6 +117,8 @@ func (s *Solver) readLine() (string, error) {
 }
 
 // CheckWith decides satisfiability of the conjunction of pcs and extra (nothing else is asserted).
+var slowQueryMs = func() int { n, _ := strconv.Atoi(os.Getenv("GOSX_SLOWQ")); return n }()
+
 func (s *Solver) CheckWith(pcs []*Term, extra *Term, wantVars map[string]*Term) (SatResult, Model) {
 	t0 := time.Now()
 	s.send("(push 1)")
@@ -129,8 +133,21 @@ func (s *Solver) CheckWith(pcs []*Term, extra *Term, wantVars map[string]*Term) 
 		}
 	}
 	s.Time += time.Since(t0)
+	tq := time.Now()
 	res, m := s.Check(extra, wantVars)
 	s.lastSMT = sb.String() + s.lastSMT + "\n(check-sat)"
+	if slowQueryMs > 0 && time.Since(tq) > time.Duration(slowQueryMs)*time.Millisecond {
+		var names []string
+		for n := range wantVars {
+			names = append(names, n)
+		}
+		sort.Strings(names)
+		q := s.lastSMT
+		fmt.Fprintf(os.Stderr, "SLOWQ %dms res=%v vars=%v pcs=%d size=%d\n", time.Since(tq).Milliseconds(), res, names, len(pcs), len(q))
+		if os.Getenv("GOSX_SLOWQ_DUMP") != "" {
+			fmt.Fprintln(os.Stderr, q)
+		}
+	}
 	s.send("(pop 1)")
 	return res, m
 }
